@@ -26,7 +26,7 @@ func init() {
 		Technique: "bounded-exhaustive enumeration of field selections (every field alone, all pairs, triples by planner membership class) with and without an event declaration, each run once through the real pipeline against a chain whose every field is distinct and non-zero; oracle = every stored cell equals the node's value",
 		Rule: "cases = the 28 field names the row builder understands: each alone, all 378 unordered pairs, all triples over one representative per membership class of the planner's tables (header/block/receipt/log/trace; every data field of the class 'in no table' is its own representative; thorough: all 3276 triples), " +
 			"each WITH an event declaration that has one selected input (log indexing; thorough: also an all-indexed event whose logs carry no data) and WITHOUT (transaction indexing; trace indexing when a trace field is selected). Chain: 2 blocks x 2 txs x 2 logs x 2 traces, every value distinct and non-zero, tx.to non-nil. " +
-			"Only well-formed selections are judged (log_idx/log_addr only with log indexing, trace_action_* only without selected event inputs); ill-formed ones are executed and only 'did it crash' is recorded as an observation. A case is non-trivial when the declared projection has at least one row.",
+			"Every selection is also run with each field stored under a renamed column (column name != field name). Every well-formed single and pair is also run against a transiently inconsistent source: during the first step the answers of one fetch method (blocks, headers, receipts, logs, the header fetched with logs, traces) for the first / last / every block of the range are {\"result\": null}, followed by a faithful retry; a step must either fail and write nothing or write the declared projection. Only well-formed selections are judged (log_idx/log_addr only with log indexing, trace_action_* only without selected event inputs); ill-formed ones are executed and only 'did it crash' is recorded as an observation. A case is non-trivial when the declared projection has at least one row.",
 		Assumptions: []string{
 			"simulated node (h/simeth) answers eth_getBlockByNumber / eth_getBlockReceipts / eth_getLogs / trace_block like a well-behaved geth/erigon; fake Postgres (h/simpg) stores what COPY sends",
 			"every block of the chain has transactions, logs and traces (the separately tracked defect 'trace_block answers [] for a block without traces' is not exercised)",
@@ -158,6 +158,38 @@ func c14Specs(thorough bool) []spec {
 		out = append(out, spec{Part: parts[i] + ":noevent", Fields: sel, Shape: 2})
 		if thorough && parts[i] != "triple" {
 			out = append(out, spec{Part: parts[i] + ":event-nodata", Inputs: eventNoData, Fields: sel, Shape: 2})
+		}
+	}
+	// the same selections with every field stored under a column whose name differs from the field name:
+	// the planner must go by the FIELD (nothing else in the selection is named like its field, so nothing
+	// else pulls in the RPC method that supplies it)
+	for i, sel := range sels {
+		out = append(out, spec{Part: parts[i] + ":event:renamed", Inputs: event, Fields: sel, Prefix: "c_", Shape: 2})
+		out = append(out, spec{Part: parts[i] + ":noevent:renamed", Fields: sel, Prefix: "c_", Shape: 2})
+	}
+	// transient inconsistency of the source: during the first step the answers of one fetch method for the
+	// first / last / every block of the range are {"result": null} (a lagging backend), then a faithful retry.
+	// Oracle unchanged: a step either fails and writes nothing, or what it wrote is the declared projection.
+	for i, sel := range sels {
+		if parts[i] == "triple" && !thorough {
+			continue
+		}
+		for _, ins := range [][]inSpec{event, nil} {
+			base := spec{Part: parts[i] + ":null-answer", Inputs: ins, Fields: sel, Shape: 2}
+			if !c14WellFormed(base) {
+				continue
+			}
+			for _, m := range nullMethods {
+				targets := []string{"first", "last", "all"}
+				if m == "logs" || m == "logs-head" {
+					targets = []string{"all"} // one call per range
+				}
+				for _, t := range targets {
+					x := base
+					x.Null = &nullAns{Method: m, Target: t}
+					out = append(out, x)
+				}
+			}
 		}
 	}
 	return out
